@@ -5,6 +5,16 @@ HERE = os.path.dirname(os.path.dirname(os.path.abspath(__file__)))
 
 # id -> (level text, level note, technique, design_ref)
 CHECKS = {
+ 'C19': ("Lean 4 proof over a block-by-block model of RoundRobinArbiter and RoundRobinArbiterEn with the RegEnRst(reset_value=1) pointer register, for every nreqs, "
+         "request vector and input history: the pointer is one-hot in every state reachable through a reset (onehot_inv/onehot_history); the grant vector is zero or "
+         "one-hot, a subset of reqs, nonzero iff reqs is nonzero, and equal to 2^k for the requester cyclically first from the pointer (grants_closed_form); the pointer "
+         "goes to (k+1)%n exactly when priority_en is high without reset, holds otherwise, and goes to 0 on reset, en gating the update in the En variant; a continuously "
+         "requesting input is granted within nreqs advancing cycles (fair, by induction over arbitrary histories with the decreasing cyclic distance). Tied to the real "
+         "components by exhaustive differential simulation (pointer x reqs x en x reset, internal kill-chain wires included) for nreqs <= 6 (<= 8 thorough) and random "
+         "histories up to nreqs 64, with an independent oracle of the property on the observed ports.",
+         "Theorems assume a reset has occurred (the uninitialised register 0 grants nothing: proved as dead_before_reset and compared, not a violation). Fairness windows "
+         "contain no reset. Hand-written model Model/Arb.lean and the simulator's scheduling are trusted, validated only by the correspondence run.",
+         "Lean 4 proof (invariant + closed form + decreasing measure) + exhaustive/random differential correspondence", "DESIGN.md §5 C19"),
  'C01': ("Lean 4 theorems: for abstract blocks with read/write footprints (any variable/value types) every topological order of a single-writer block set "
          "reaches the unique fixed point of the dataflow equations (fixed_point_of_topo, unique_fixed_point, schedule_independent); the bridge lemmas "
          "(denote_wf, topoB_sound, singleWriterB_sound) carry this to the executable RTL model, giving any_order / rerun_noop / dataflow_unique / tick_indep "
